@@ -193,6 +193,11 @@ func QuantileCI(n int, q, confidence float64) QuantileCIResult {
 		// Use the normal approximation.
 		norm := samp.NormalApprox()
 		alpha := (1 - confidence) / 2
+		if alpha > 0.5 {
+			// A negative confidence asks for no more than zero
+			// confidence; don't invert the band.
+			alpha = 0.5
+		}
 
 		// Find the center "confidence" weight of the
 		// distribution.
@@ -218,6 +223,12 @@ func QuantileCI(n int, q, confidence float64) QuantileCIResult {
 		}
 		l = floorInt(math.Floor(l1-0.5)+0.5) + 1
 		r = floorInt(math.Ceil(r1-0.5)+0.5) + 1
+		if r <= l {
+			// The band has zero width and sits on a bucket
+			// boundary. Keep one bucket so the interval is
+			// never empty.
+			r = l + 1
+		}
 
 		if debug {
 			fmt.Printf("  [%v,%v] rounds to [%v,%v]\n", l1, r1, l, r)
@@ -243,7 +254,7 @@ func QuantileCI(n int, q, confidence float64) QuantileCIResult {
 		if debug {
 			fmt.Printf("  unbiased %v, biased %v\n", res.Confidence, cdf(l, rBiased))
 		}
-		if aBiased := cdf(l, rBiased); aBiased >= confidence && aBiased < res.Confidence {
+		if aBiased := cdf(l, rBiased); rBiased > l && aBiased >= confidence && aBiased < res.Confidence {
 			if debug {
 				fmt.Printf("  taking biased\n")
 			}
